@@ -840,7 +840,7 @@ def _r1(rep, d, tier):
     def one(i):
         label, kw, want = jobs[i]
         cfg = _cfg(d, "r1_%d" % i, **kw)
-        return tlc.run_tlc("PycCache.tla", cfg, workers=4, coverage=want is None)
+        return tlc.run_tlc("PycCache.tla", cfg, workers=2, coverage=want is None)
     with ThreadPoolExecutor(len(jobs)) as ex:
         results = list(ex.map(one, range(len(jobs))))
     return jobs, results
@@ -1016,7 +1016,8 @@ def _macro_graph(g):
 
 def _macro_paths(g, macro, rnd, limit, stale=()):
     """all run sequences (maximal macro paths, trailing/leading edits trimmed); a seeded sample
-    that still covers every (first run, edit?, second run) prefix when there are more than limit."""
+    that still covers every (hooks of first run, hooks of second run) pair -- and first of all the
+    pairs for which TLC predicts a stale reuse -- when there are more than limit."""
     init = g.init[0]
     paths = []
 
@@ -1061,7 +1062,7 @@ def _macro_paths(g, macro, rnd, limit, stale=()):
                 nruns += s["op"] == "run"
                 if nruns == 2:
                     break
-            pre = json.dumps([s for s, _ in p[:k + 1]], sort_keys=True)
+            pre = json.dumps([s["hook"] for s, _ in p[:k + 1] if s["op"] == "run"], sort_keys=True)
             if pre not in seen_prefix:
                 seen_prefix.add(pre)
                 chosen.append(p)
@@ -1145,7 +1146,7 @@ def _check_run(rep, ctx, beh, ri, r, exp_state, origin):
 
 
 def _seq_configs(tier):
-    return [("seq1", dict(mods=["a"], confs=ALL_CONFS, threads=[1], maxsrc=2, maxruns=3), 170 if tier == "quick" else None),
+    return [("seq1", dict(mods=["a"], confs=ALL_CONFS, threads=[1], maxsrc=2, maxruns=3), 120 if tier == "quick" else None),
             ("seq2", dict(mods=["a", "b"], confs=["default", "nopep"], threads=[1], maxsrc=1 if tier == "quick" else 2,
                           maxruns=2), 30 if tier == "quick" else 500)]
 
@@ -1451,6 +1452,11 @@ def run(rep, tier, seed):
         "decorator placement of classes under LAST_BEFORE_DECOR_HOSTILE is not distinguished from LAST",
     ]
     rnd = random.Random(seed)
+    t_start = time.time()
+
+    def tick(what):
+        if os.environ.get("C16_TIMING"):
+            print(f"[C16 timing] {time.time() - t_start:6.1f}s {what}", file=sys.stderr, flush=True)
     with scratch("c16-") as d, ThreadPoolExecutor(16) as pool:
         ctx = Ctx(rep, d, seed)
         r1 = pool.submit(_r1, rep, d, tier)
@@ -1458,8 +1464,11 @@ def run(rep, tier, seed):
         warm = ctx.exec_behaviour({"kind": "seq", "steps": [{"op": "run", "hook": {"a": "default", "b": "off"}, "order": ["a", "b"]}]})
         ctx.traces.append(({"kind": "seq", "steps": [{"op": "run", "hook": {"a": "default", "b": "off"}, "order": ["a", "b"]}]}, warm[1]))
         ok = not (_scan_events(rep, warm[1], ctx.traces[0][0]) or _check_mixing(rep, ctx.traces[0][0], 0, warm[0][0]))
+        tick("warm-up run done")
         ok = ok and _references(rep, ctx, d, pool)
+        tick("reference runs, tables, disciplines done")
         _r1_judge(rep, *r1.result())
+        tick("R1 done")
         if ok:
             with ThreadPoolExecutor(5) as tpool:
                 fut = _launch_tlc(ctx, d, tier, tpool)
@@ -1470,9 +1479,13 @@ def run(rep, tier, seed):
                     for f in fut.values():
                         f.result()
                     fut = _launch_tlc(ctx, d, tier, tpool)
+                tick("patch discipline probed")
                 _r2_sequential(rep, ctx, d, pool, tier, rnd, fut)
+                tick("R2 sequential done")
                 _r2_concurrent(rep, ctx, d, pool, tier, rnd, fut)
+                tick("R2 concurrent done")
             _r3_traces(rep, ctx, d, tier, rnd)
+            tick("R3 done")
         rep.add("interpreter_runs", ctx.child_runs)
     # TLC explores its bounded models exhaustively; the replay covers every run sequence of the
     # one-module model in the thorough tier and seeded samples elsewhere
